@@ -125,6 +125,11 @@ def plan(tier, seed):
     attr2 = {'tag': 'div', 'close_indent': 0, 'children': [
         'A', {'tag': 'p', 'content': ['text', {'attr': [py('o'), 'k']}], 'children': ['x']}, 'B']}
     jobs.append({'prog': attr2, 'vars': [['o', 'obj', 0]], 'label': 'attr-fallback'})
+    # an attribute that exists wins over an item of the same name (dict methods vs. keys called like them)
+    attr3 = {'tag': 'div', 'close_indent': 0, 'children': [
+        'A', {'tag': 'p', 'children': [{'interp': {'pipe': [py("rec('first', show(o.keys))"), py("rec('second', 'fallback')")]}}]},
+        {'tag': 'q', 'children': [{'interp': {'pipe': [py("sorted(o.keys())"), py("'not-callable'")]}}]}, 'B']}
+    jobs.append({'prog': attr3, 'vars': [['o', 'obj2', 0]], 'label': 'attr-before-item'})
 
     # python sub-grammar: lambdas (parameter names colliding with template variables), f-strings,
     # comprehensions, calls/attribute/item access
@@ -172,7 +177,7 @@ def plan(tier, seed):
         bounds=('%d programs: %d expression shapes (pipes of length 1-%d, not:/exists:/string:/structure:/python: '
                 'nestings of depth <= 2) x up to 11 site kinds; per leaf the solver ranges over {succeeds (symbolic '
                 'truthiness), raises one of 10 exception classes}; name resolution with each of len/abs/str bound or '
-                'not; attribute->item fallback over 8 object kinds. Outside: import:/load:, deeper nestings, python '
+                'not; attribute->item fallback over 8 object kinds, attribute-before-item over 5 kinds (dicts with keys named like their methods, a dict subclass, an object with both). Outside: import:/load:, deeper nestings, python '
                 'sub-grammar (comprehensions, lambdas, f-strings: see seeded C04-a), expression text with markup '
                 'characters.' % (len(jobs), len(shapes(tier)), 3 if quick else 4)),
         assumptions=[
